@@ -2,6 +2,12 @@
 //
 // Op line (tokens separated by single spaces):
 //   <mode> <lossless> <prec> <linelength> <compress> <cols0> <addr-hex|-> <arg>*
+//   <lossless> = `N`: the printers are called with opt == NULL (default_print_options; <prec> <linelength>
+//         <compress> are ignored)
+//   <cols0>: the printers' argument cols_used.  In mode A with cols0 > 0 the printer is given a buffer that
+//         points cols0 bytes into a line the caller has already written ((cols0-1) x 'p' and one blank: the
+//         printers read, and when they break the line overwrite, the separator at buffer[-1]); the output then
+//         has a token `B <dec>` = that byte after printing
 //   mode  A  rtosc_print_arg_vals / rtosc_count_printed_arg_vals / rtosc_scan_arg_vals
 //         M  rtosc_print_message / rtosc_count_printed_arg_vals_of_msg / rtosc_scan_message
 //         T  <text-hex>: only count + scan of the given text (no printing); used for witnesses
@@ -11,8 +17,12 @@
 //   arg   i<dec> h<dec> c<dec> f<hex8> d<hex16> t<hex16> r<hex8> m<hex8>
 //         s:<hex|-> S:<hex|-> b:<hex|-> T F N I
 //         [<tydec>  ... ]      array header with element-type byte <tydec>, then the elements, then `]`
+//         R<num>:<hasdelta>    range header ('-' cell) as rtosc_convert_to_range / the scanner make it; followed by
+//                              delta and start value (hasdelta = 1) or by the repeated value (hasdelta = 0)
 // Output line:
-//   P <ret> <text-hex> C <count> S <rd> <nscanned> <cell>* [A <addr-hex>] E <eq>
+//   P <ret> <text-hex> [B <dec>] C <count> S <rd> <nscanned> <cell>* [A <addr-hex>] E <eq>
+//   The cell array handed to the scanners is pre-filled with a byte pattern (0x00 / 0xa5 / 0xff, chosen from the
+//   op line): a scanner that leaves a field of a cell unwritten shows the caller's garbage in the output.
 //   cells as the arg tokens (booleans with their payload: T<val.T> F<val.T>, i.e. `T1` `F0`), plus
 //   a<tydec>:<len>  (array header)  and  R<num>:<hasdelta> (range header)
 //   after `C <count>` with count < 0 (syntax error reported) the line ends with `S -`.
@@ -61,6 +71,8 @@ static bool parse_args(const std::vector<std::string> &w, size_t from, std::vect
         case 'T': av.type = 'T'; av.val.T = 1; break;
         case 'F': av.type = 'F'; av.val.T = 0; break;
         case 'N': case 'I': av.type = c; break;
+        case 'R': { int num = 0, hd = 0; if (sscanf(rest, "%d:%d", &num, &hd) != 2) return false;
+                    av.type = '-'; rtosc_av_rep_num_set(&av, num); rtosc_av_rep_has_delta_set(&av, hd); break; }
         case '[': av.type = 'a'; rtosc_av_arr_type_set(&av, (char)atoi(rest)); open.push_back(out.size()); break;
         case ']': { if (open.empty()) return false; size_t h = open.back(); open.pop_back();
                     rtosc_av_arr_len_set(&out[h], (int32_t)(out.size() - h - 1)); continue; }
@@ -85,7 +97,7 @@ static std::string cell(const rtosc_arg_val_t &a) {
     case 'b': return std::string("b:") + hex(a.val.b.data, a.val.b.len > 0 ? (size_t)a.val.b.len : 0);
     // booleans bit-complete: the payload val.T (F => 0, T => 1) is what rtosc_arg_val_to_int() and
     // the range arithmetic read, so `T1` / `F0` is what a scanned boolean must look like
-    case 'T': case 'F': snprintf(buf, sizeof buf, "%c%d", a.type, (int)a.val.T); return buf;
+    case 'T': case 'F': snprintf(buf, sizeof buf, "%c%d", a.type, (int)(unsigned char)a.val.T); return buf;
     case 'N': case 'I': return std::string(1, a.type);
     case 'a': snprintf(buf, sizeof buf, "a%d:%d", (int)(unsigned char)rtosc_av_arr_type(&a), rtosc_av_arr_len(&a)); return buf;
     case '-': snprintf(buf, sizeof buf, "R%d:%d", rtosc_av_rep_num(&a), rtosc_av_rep_has_delta(&a)); return buf;
@@ -93,7 +105,9 @@ static std::string cell(const rtosc_arg_val_t &a) {
     }
 }
 
-static const size_t TEXTCAP = 1 << 16;
+static size_t TEXTCAP = 1 << 16;   // per op line: at least 64 KiB, and room for 32 characters per character of the op line (a double prints up to ~350 characters for 17)
+
+static unsigned char g_fill = 0;   // pattern the scanned cell array is pre-filled with (set per op line)
 
 static std::string count_scan(const char *text, bool msg, const rtosc_arg_val_t *orig, size_t norig) {
     std::ostringstream o;
@@ -102,8 +116,8 @@ static std::string count_scan(const char *text, bool msg, const rtosc_arg_val_t 
     if (count < 0) { o << " S -"; return o.str(); }
     // exact-size cell array: a scanner that writes more cells than the checker counted is caught by ASan
     rtosc_arg_val_t *sc = (rtosc_arg_val_t *)malloc(count ? sizeof(rtosc_arg_val_t) * (size_t)count : 1);
-    if (count) memset(sc, 0, sizeof(rtosc_arg_val_t) * (size_t)count);
-    const size_t sbs = 1 << 16;
+    if (count) memset(sc, g_fill, sizeof(rtosc_arg_val_t) * (size_t)count);
+    const size_t sbs = TEXTCAP;
     char *strbuf = (char *)malloc(sbs);
     memset(strbuf, 0x7f, sbs);
     char addr[256];
@@ -162,6 +176,9 @@ static std::string step(const std::string &line) {
     auto w = words(line);
     if (w.empty()) return "bad-op";
     if (w[0] == "X") return libc_step(w);
+    { unsigned h = 0; for (unsigned char ch : line) h = h * 31 + ch;
+      static const unsigned char pat[3] = {0xa5, 0x00, 0xff}; g_fill = pat[h % 3]; }
+    TEXTCAP = std::max<size_t>(1 << 16, 32 * line.size() + 4096);
     if (w[0] == "T" || w[0] == "TM") {
         bytes t; if (w.size() < 2 || !unhex(w[1], t)) return "bad-op";
         t.push_back(0); Exact mem(t);
@@ -170,6 +187,7 @@ static std::string step(const std::string &line) {
     if (w.size() < 7 || (w[0] != "A" && w[0] != "M")) return "bad-op";
     bool msg = w[0] == "M";
     rtosc_print_options opt;
+    const bool optnull = w[1] == "N";
     opt.lossless = atoi(w[1].c_str()) != 0;
     opt.floating_point_precision = atoi(w[2].c_str());
     opt.sep = " ";
@@ -185,18 +203,25 @@ static std::string step(const std::string &line) {
     size_t n = args.size();
     rtosc_arg_val_t *cells = (rtosc_arg_val_t *)malloc(n ? n * sizeof(rtosc_arg_val_t) : 1);
     if (n) memcpy(cells, args.data(), n * sizeof(rtosc_arg_val_t));
-    char *text = (char *)malloc(TEXTCAP);
-    memset(text, 0x7f, TEXTCAP);
+    if (cols0 < 0 || cols0 > 4096) return "bad-op";
+    // mode A with cols_used > 0: the caller's line so far stands in front of the buffer
+    const size_t pre = (!msg && cols0 > 0) ? (size_t)cols0 : 0;
+    char *block = (char *)malloc(TEXTCAP + pre);
+    memset(block, 0x7f, TEXTCAP + pre);
+    if (pre) { memset(block, 'p', pre); block[pre - 1] = ' '; }
+    char *text = block + pre;
     text[0] = 0;
-    size_t ret = msg ? rtosc_print_message((const char *)addr.data(), cells, n, text, TEXTCAP, &opt, cols0)
-                     : rtosc_print_arg_vals(cells, n, text, TEXTCAP, &opt, cols0);
+    const rtosc_print_options *po = optnull ? NULL : &opt;
+    size_t ret = msg ? rtosc_print_message((const char *)addr.data(), cells, n, text, TEXTCAP, po, cols0)
+                     : rtosc_print_arg_vals(cells, n, text, TEXTCAP, po, cols0);
     size_t len = strnlen(text, TEXTCAP);
     std::ostringstream o;
     o << "P " << ret << " " << hex((const unsigned char *)text, len) << " ";
+    if (pre) o << "B " << (int)(unsigned char)text[-1] << " ";
     // the scanners get the text in an exact-size block (NUL included)
     bytes tb((unsigned char *)text, (unsigned char *)text + len);
     tb.push_back(0);
-    free(text);
+    free(block);
     {
         Exact mem(tb);
         o << count_scan(mem.c(), msg, cells, n);
